@@ -21,6 +21,9 @@ func NewServerTLSConfig(ctx context.Context, certs []tls.Certificate, cquery cty
 		ClientAuth:         tls.RequestClientCert,
 		InsecureSkipVerify: true, // nolint: gosec
 		MinVersion:         tls.VersionTLS13,
+		// VerifyPeerCertificate is not invoked on resumed sessions: without tickets every
+		// connection goes through the on-chain lookup, so a revoked certificate stops working
+		SessionTicketsDisabled: true,
 		VerifyPeerCertificate: func(certificates [][]byte, _ [][]*x509.Certificate) error {
 			if len(certificates) > 0 {
 				if len(certificates) != 1 {
